@@ -373,6 +373,14 @@ def run_case(case):
                 params = dict(zip(names, p))
                 if check_global(spec, desc, n, p, params, ws, case["budget"]):
                     exact += 1
+            if len(names) >= 2:
+                # the same requests once more on the same specification object with the keyword
+                # arguments in the opposite order (keyword order must not matter; anything
+                # remembered from the earlier requests is now in place)
+                for p, ws in by.items():
+                    params = dict(reversed(list(zip(names, p))))
+                    cx.count("sampling.requests_with_reversed_keyword_order")
+                    check_global(spec, desc, n, p, params, ws, case["budget"])
         # local monitor on every rule with word-class parent
         for cls, rule in list(spec.rules_dict.items()):
             if not isinstance(rule, Rule):
